@@ -288,8 +288,14 @@ package cose
 //@   ensures err_nil: err != nil ==> result == nil
 //@   modifies frame [C13, C18]: nothing
 
+// the protected bucket can be emitted / can enter a Sig_structure
+//@ spec protOK(h Headers) Bool = len(h.RawProtected) > 0 || protMapOK(h.Protected)
+//@ spec unprotOK(h Headers) Bool = len(h.RawUnprotected) > 0 || unprotMapOK(h.Unprotected)
+//@ spec tbsOK(h Headers) Bool = len(h.RawProtected) > 0 ? (b_major(bytes(h.RawProtected)) == 2 && bstr_wf(bytes(h.RawProtected))) : protMapOK(h.Protected)
+
 //@ func (*Headers).MarshalProtected
 //@   requires nonnil: h != nil
+//@   ensures err_iff [C01, C07, C08]: err == nil <==> old(protOK(*h))
 //@   ensures raw_preferred [C02, C09, C10]: len(h.RawProtected) > 0 ==> err == nil && result == h.RawProtected
 //@   ensures fun [C02, C04, C08, C09, C10]: err == nil ==> bytes(result) == ProtBytes(*h) && len(result) > 0
 //@   ensures fresh_or_raw [C18, C19]: err == nil && len(h.RawProtected) == 0 ==> fresh(result)
@@ -298,6 +304,7 @@ package cose
 
 //@ func (*Headers).MarshalUnprotected
 //@   requires nonnil: h != nil
+//@   ensures err_iff [C01, C07, C08]: err == nil <==> old(unprotOK(*h))
 //@   ensures raw_preferred [C09]: len(h.RawUnprotected) > 0 ==> err == nil && result == h.RawUnprotected
 //@   ensures fun [C08, C09]: err == nil ==> bytes(result) == UnprotBytes(*h) && len(result) > 0
 //@   ensures err_nil: err != nil ==> result == nil
@@ -315,12 +322,14 @@ package cose
 
 //@ func (*Sign1Message).toBeSigned
 //@   requires nonnil: m != nil
+//@   ensures err_iff [C01, C07]: err == nil <==> old(tbsOK(m.Headers))
 //@   ensures fun [C01, C02, C03, C04, C20]: err == nil ==> bytes(result) == old(Sig1(ProtBytes(m.Headers), external, m.Payload)) && fresh(result)
 //@   ensures err_nil: err != nil ==> result == nil
 //@   modifies frame [C18]: nothing
 
 //@ func (*Signature).toBeSigned
 //@   requires nonnil: s != nil
+//@   ensures err_iff [C01, C07]: err == nil <==> old(tbsOK(s.Headers) && len(bodyProtected) > 0 && b_major(bytes(bodyProtected)) == 2 && bstr_wf(bytes(bodyProtected)))
 //@   ensures fun [C01, C02, C03, C04, C11, C20]: err == nil ==> bytes(result) == old(SigN(bytes(bodyProtected), ProtBytes(s.Headers), external, payload)) && fresh(result)
 //@   ensures err_nil: err != nil ==> result == nil
 //@   modifies frame [C18]: nothing
@@ -401,6 +410,9 @@ package cose
 //@   ensures mismatch [C01, C04, C06]: m != nil && m.Payload != nil && len(m.Signature) > 0 && uniqueLabels(asmap(m.Headers.Protected)) && algIntMismatch(m.Headers.Protected, verifier_alg(verifier))
 //@         ==> result != nil && Is(result, ErrAlgorithmMismatch)
 //@   ensures precheck [C01, C03, C06]: (m == nil || m.Payload == nil || len(m.Signature) == 0) ==> result != nil && vepoch() == old(vepoch())
+//@   ensures complete [C01, C07]: m != nil && m.Payload != nil && len(m.Signature) > 0 && old(uniqueLabels(asmap(m.Headers.Protected)))
+//@         && old((algPresent(m.Headers.Protected) ==> algAgrees(m.Headers.Protected, verifier_alg(verifier))) && (algPresent(m.Headers.Protected) || len(external) > 0))
+//@         && old(tbsOK(m.Headers)) ==> vepoch() == old(vepoch()) + 1
 //@   modifies frame [C01, C06, C18]: nothing
 
 //@ func (*Sign1Message).Sign
@@ -418,6 +430,9 @@ package cose
 //@   ensures mismatch [C04]: m != nil && old(m.Payload) != nil && old(len(m.Signature)) == 0 && old(uniqueLabels(asmap(m.Headers.Protected))) && old(algIntMismatch(m.Headers.Protected, signer_alg(signer)))
 //@         ==> err != nil && Is(err, ErrAlgorithmMismatch) && epoch() == old(epoch())
 //@   ensures precheck [C20]: (m == nil || old(m.Payload) == nil || old(len(m.Signature)) > 0) ==> err != nil && epoch() == old(epoch())
+//@   ensures ok_tbs [C01]: err == nil ==> tbsOK(m.Headers)
+//@   ensures raw_unchanged [C01]: m != nil && old(m.Headers.RawProtected) != nil ==> m.Headers.Protected == old(m.Headers.Protected)
+//@         && mapdom(asmap(m.Headers.Protected)) == old(mapdom(asmap(m.Headers.Protected))) && mapval(asmap(m.Headers.Protected)) == old(mapval(asmap(m.Headers.Protected)))
 //@   modifies frame [C18]: m.Signature, m.Headers.Protected, mapof(asmap(m.Headers.Protected))
 
 // ===================================================================
@@ -1292,3 +1307,20 @@ package cose
 //@   modifies frame [C18]: nothing
 //@   loop 1 invariant bounds: 0 <= idx && idx <= len(v.([]*Countersignature)) && v is []*Countersignature && len(v.([]*Countersignature)) > 0
 //@   loop 1 invariant prefix: forall j Int :: 0 <= j && j < idx ==> ptrat(addrelems(), v.([]*Countersignature), j) != nil
+
+// ===================================================================
+// lemmas_verif.go: end-to-end compositions (proof harnesses)
+// ===================================================================
+
+// a matching signer / verifier pair: same algorithm, every signature the signer returns without error is non-empty
+// and accepted by the verifier for the same message (the cryptographic assumption of C01, stated not proved)
+//@ spec pairOK(s Signer, v Verifier) Bool = signer_alg(s) == verifier_alg(v)
+//@         && (forall r any, t Bytes, e Int :: signer_sign_err(s, r, t, e) == nil ==> blen(signer_sign_bytes(s, r, t, e)) > 0 && verifier_verify(v, t, signer_sign_bytes(s, r, t, e)) == nil)
+
+//@ func lemmaSign1SignThenVerify
+//@   requires nonnil: signer != nil && verifier != nil
+//@   requires pair: pairOK(signer, verifier)
+//@   requires uniq: m != nil && len(m.Headers.RawProtected) > 0 ==> uniqueLabels(asmap(m.Headers.Protected))
+//@   ensures roundtrip [C01]: result == nil
+//@   ensures counts: epoch() >= old(epoch()) && vepoch() >= old(vepoch())
+//@   modifies frame: anything
